@@ -78,6 +78,14 @@ CLAIMED = {
                   "recomputed by TLC from the same file bytes.",
              note="Trusts TLC; BCn arithmetic conventions as recalled from the Direct3D description; BC1 black-entry alpha excluded by the property.",
              ref="5 C13"),
+ "C09": dict(cat="model_checking", tech="TLC check of the documented position/checksum/marker laws + TLC trace validation of files written and parsed by the real library",
+             text="UserFiles.tla holds the documented byte positions of the character preset, its checksum, the gear-set header, XOR mask, 100 x 452-byte "
+                  "records and the +1 000 000 item-id marker; TLC checks position law, checksum (incl. a fixture value) and round trip on an enumerated "
+                  "domain. Presets with every field swept over its byte values, timestamps, comment lengths and gear tables over every slot x id class "
+                  "are written by the library, decoded by the specification (independent decoder), parsed back, and canonical files from an independent "
+                  "encoder and the fixtures must be reproduced byte for byte.",
+             note="Trusts TLC, gen/userfiles.py; layouts corroborated by the five repository fixtures. The 45 KB re-write comparison is the shim's bit-exact echo test.",
+             ref="5 C09"),
 }
 HOOK_COMMITS = ["5eeb305"]
 REASON_PENDING = "check not built yet in this session (see DESIGN.md section 5); will be claimed when its trace specification exists"
